@@ -15,36 +15,45 @@ ENG_FNS = {
 
 
 def select(rnd, fam, tier_all=False):
-    """quick-tier members of the primitive family (shared by C15 and C03)"""
+    """quick-tier members of the primitive family (shared by C15, C03 and C13).
+    Budget: every quick command must finish well inside 15 min on a machine 2-3x slower than
+    this one, so size-4 additivity, size-8 basis and most size-8 miters are thorough-tier only."""
     q = set()
     tuples = sorted({(m["op"], m["size"], m["trunc"], m["delta"]) for m in fam if m["kind"] == "basis"})
     t4 = [t for t in tuples if t[1] == 4]
-    t8 = [t for t in tuples if t[1] == 8]
-    t2 = [t for t in tuples if t[1] <= 2]
-    chosen = [rnd.choice([t for t in t4 if t[0] == "fft" and t[2] < 4]), rnd.choice([t for t in t4 if t[0] == "ifft"]), rnd.choice(t2)]
-    big = rnd.choice(t8)
+    t2 = [t for t in tuples if t[1] == 2]
+    f4 = rnd.choice([t for t in t4 if t[0] == "fft" and t[2] < 4])      # truncated fft, size 4
+    i4 = rnd.choice([t for t in t4 if t[0] == "ifft"])
+    s2 = [rnd.choice([t for t in t2 if t[0] == "fft"]), rnd.choice([t for t in t2 if t[0] == "ifft"])]
     odd_delta = rnd.choice([0, 2, 4, 65534])
     odd_trunc = rnd.choice([1, 3, 5])
     for m in fam:
         key = (m.get("op"), m.get("size"), m.get("trunc"), m.get("delta"))
-        if m["kind"] in ("basis", "additive") and key in chosen:
+        if m["kind"] == "basis":
+            if key in s2 or key == ("fft", 2, 1, odd_delta):
+                q.add(m["name"])
+            if key == f4 and m["p"] in (0, 3):
+                q.add(m["name"])
+            if key == i4 and m["p"] == 0:
+                q.add(m["name"])
+        if m["kind"] == "additive" and key in s2:
             q.add(m["name"])
-        # (size-8 basis harnesses take 3-15 min each: thorough tier; quick covers size 8 through the
-        #  NoSimd known answer and the SIMD miters)
-        if m["kind"] == "kat" and m["size"] == 8 and m["engine"] == "nosimd" and m["op"] == "fft":
-            q.add(m["name"])
-        if m["kind"] == "miter" and (key in chosen[:2] or (key == big and m["engine"] == "avx2")):
-            q.add(m["name"])
-        # every engine: a final-odd-layer fft with an odd truncated size (size 2 and size 8) and a truncated ifft
-        if m["kind"] == "miter" and key in (("fft", 2, 1, odd_delta), ("fft", 8, odd_trunc, 0), ("ifft", 8, odd_trunc, 8)) and not (m["engine"] == "neon" and m["size"] > 4):
-            q.add(m["name"])
-        if m["kind"] == "basis" and key == ("fft", 2, 1, odd_delta):
-            q.add(m["name"])
+        if m["kind"] == "miter":
+            if key in (f4, i4) and m["engine"] in ("ssse3", "avx2"):
+                q.add(m["name"])
+            if key == f4 and m["engine"] == "neon":
+                q.add(m["name"])
+            # every SIMD engine: a final-odd-layer fft with an odd truncated size (size 2); AVX2 also at size 8
+            if key == ("fft", 2, 1, odd_delta):
+                q.add(m["name"])
+            if key == ("fft", 8, odd_trunc, 0) and m["engine"] == "avx2":
+                q.add(m["name"])
+            if key == ("ifft", 8, odd_trunc, 8) and m["engine"] == "ssse3":
+                q.add(m["name"])
         if m["kind"] == "kat" and m["size"] == 4:
             q.add(m["name"])
         if m["kind"] == "mul" and m["nblocks"] == 1:
             q.add(m["name"])
-        # (mul_naive: thorough tier only, see families.py)
     return q
 
 
